@@ -26,6 +26,8 @@ ExS(site, ty, pre, w, suf, path) ==      \* a generic extension around the field
   S(site, "parse_tls_extension", NoArgs, BE16(ty) \o BE16(Len(pre) + w + Len(suf)) \o pre, w, suf, path)
 RecS(site, ct, pre, w, suf, path) ==     \* a plaintext record around the field
   S(site, "parse_tls_plaintext", NoArgs, <<ct, 3, 3>> \o BE16(Len(pre) + w + Len(suf)) \o pre, w, suf, path)
+Hist(h) == [NoArgs EXCEPT !.sub = h]
+Cut(c1, c2) == [NoArgs EXCEPT !.len = c1, !.ct = c2]
 Sites == <<
   S("record_version_raw", "parse_tls_raw_record", NoArgs, <<23>>, 2, <<0, 1, 9>>, "hdr.ver"),
   S("record_version_plaintext", "parse_tls_plaintext", NoArgs, <<21>>, 2, <<0, 2, 1, 0>>, "hdr.ver"),
@@ -118,7 +120,30 @@ Sites == <<
     R32 \o <<0, 0, 0, 2, 0, 47, 1, 0>>, "body.ver"),
   S("dtls_client_hello_cipher", "parse_dtls_message_handshake", NoArgs, <<1, 0, 0, 44, 0, 0, 0, 0, 0, 0, 0, 44, 254, 253>> \o R32 \o <<0, 0, 0, 4, 0, 47>>, 2,
     <<1, 0>>, "body.ciphers.1"),
-  S("dtls_record_version_in_record", "parse_dtls_plaintext_record", NoArgs, <<21>>, 2, <<0, 0, 0, 0, 0, 0, 0, 0, 0, 2, 1, 0>>, "hdr.ver")
+  S("dtls_record_version_in_record", "parse_dtls_plaintext_record", NoArgs, <<21>>, 2, <<0, 0, 0, 0, 0, 0, 0, 0, 0, 2, 1, 0>>, "hdr.ver"),
+  (* the named group through every structure that carries it (all 65536 groups are one opaque number, elliptic or not) *)
+  S("named_group_ecdh_params", "parse_ecdh_params", NoArgs, <<3>>, 2, <<1, 4>>, "params.content.g"),
+  S("named_group_ecdh_params_long_point", "parse_ecdh_params", NoArgs, <<3>>, 2, <<65>> \o Fill(3, 65) \o <<4, 3>>, "params.content.g"),
+  S("named_group_content_and_signature", "parse_content_and_signature", [NoArgs EXCEPT !.sub = "ecdh", !.ext = 1], <<3>>, 2, <<2, 4, 5, 4, 3, 0, 1, 7>>, "content.params.content.g"),
+  S("named_group_content_and_signature_old", "parse_content_and_signature", [NoArgs EXCEPT !.sub = "ecdh", !.ext = 0], <<3>>, 2, <<1, 4, 0, 2, 7, 7>>, "content.params.content.g"),
+  S("named_group_content_selector", "ECParametersContent::parse", [NoArgs EXCEPT !.ct = 3], <<>>, 2, <<9>>, "g"),
+  S("named_group_in_server_key_exchange", "deep_server_key_exchange", [NoArgs EXCEPT !.sub = "ecdh", !.ext = 1], <<12, 0, 0, 10, 3>>, 2, <<1, 4, 4, 3, 0, 1, 7>>, "params.content.params.content.g"),
+  (* through a stateful parser WITH A HISTORY (what preceded on the connection does not touch a code point) ... *)
+  S("alert_level_after_ccs", "hist_parse_record", Hist("ccs"), <<21, 3, 3, 0, 2>>, 1, <<40>>, "0.sev"),
+  S("alert_description_after_ccs_app", "hist_parse_record", Hist("ccs+app"), <<21, 3, 3, 0, 2, 2>>, 1, <<>>, "0.code"),
+  S("client_hello_cipher_after_ccs", "hist_parse_record", Hist("ccs"), <<22, 3, 3>> \o BE16(4 + Len(ChPre) + 8) \o <<1>> \o BE24(Len(ChPre) + 8) \o ChPre \o <<0, 4, 0, 47>>, 2, <<1, 0>>, "0.m.ciphers.1"),
+  S("client_hello_compression_after_alert", "hist_parse_record", Hist("alert"), <<22, 3, 3>> \o BE16(4 + Len(ChPre) + 7) \o <<1>> \o BE24(Len(ChPre) + 7) \o ChPre \o <<0, 2, 0, 47, 2, 0>>, 1, <<>>, "0.m.comp.1"),
+  S("server_hello_cipher_after_defrag", "hist_parse_record", Hist("defrag"), <<22, 3, 3>> \o BE16(42) \o <<2, 0, 0, 38, 3, 3>> \o R32 \o <<0>>, 2, <<0>>, "0.m.cipher"),
+  S("heartbeat_type_after_reset", "hist_parse_record", Hist("reset"), <<24, 3, 3, 0, 4>>, 1, <<0, 1, 7>>, "0.hbt"),
+  S("alert_level_after_hs", "hist_parse_record", Hist("hs"), <<21, 3, 1, 0, 2>>, 1, <<0>>, "0.sev"),
+  S("alert_level_after_app", "hist_parse_record", Hist("app"), <<21, 3, 3, 0, 4, 1, 0>>, 1, <<90>>, "1.sev"),
+  (* ... and when the message arrives in several records (cuts after a.len and a.len + a.ct payload bytes) *)
+  S("heartbeat_type_split_3_1", "split_parse_record", Cut(3, 1), <<24, 3, 3, 0, 7>>, 1, <<0, 4, 1, 2, 3, 4>>, "0.hbt"),
+  S("heartbeat_type_split_1_2", "split_parse_record", Cut(1, 2), <<24, 3, 3, 0, 23>>, 1, <<0, 4, 1, 2, 3, 4>> \o Fill(1, 16), "0.hbt"),
+  S("heartbeat_type_split_4_2", "split_parse_record", Cut(4, 2), <<24, 3, 3, 0, 9>>, 1, <<0, 6, 1, 2, 3, 4, 5, 6>>, "0.hbt"),
+  S("client_hello_cipher_split_header", "split_parse_record", Cut(2, 2), <<22, 3, 3>> \o BE16(4 + Len(ChPre) + 8) \o <<1>> \o BE24(Len(ChPre) + 8) \o ChPre \o <<0, 4, 0, 47>>, 2, <<1, 0>>, "0.m.ciphers.1"),
+  S("client_hello_cipher_split_inside_field", "split_parse_record", Cut(4 + Len(ChPre) + 5, 1), <<22, 3, 3>> \o BE16(4 + Len(ChPre) + 8) \o <<1>> \o BE24(Len(ChPre) + 8) \o ChPre \o <<0, 4, 0, 47>>, 2, <<1, 0>>, "0.m.ciphers.1"),
+  S("server_hello_compression_split", "split_parse_record", Cut(10, 31), <<22, 3, 3>> \o BE16(42) \o <<2, 0, 0, 38, 3, 3>> \o R32 \o <<0, 0, 47>>, 1, <<>>, "0.m.comp")
   >>
 NSites == Len(Sites)
 
@@ -144,6 +169,14 @@ Acc(site, v) ==
     [] site = "alert_level" -> v.sev [] site = "alert_description" -> v.code
     [] site = "alert_level_stateful_two_alerts" -> v[1].sev [] site = "alert_level_stateful_second_alert" -> v[2].sev
     [] site = "alert_description_stateful" -> v[1].code [] site = "heartbeat_type_stateful" -> v[1].hbt
+    [] site \in {"alert_level_after_ccs", "alert_level_after_hs"} -> v[1].sev
+    [] site = "alert_level_after_app" -> v[2].sev
+    [] site \in {"alert_description_after_ccs_app"} -> v[1].code
+    [] site \in {"client_hello_cipher_after_ccs", "client_hello_cipher_split_header", "client_hello_cipher_split_inside_field"} -> v[1].m.ciphers[2]
+    [] site = "client_hello_compression_after_alert" -> v[1].m.comp[2]
+    [] site = "server_hello_cipher_after_defrag" -> v[1].m.cipher
+    [] site = "server_hello_compression_split" -> v[1].m.comp
+    [] site \in {"heartbeat_type_after_reset", "heartbeat_type_split_3_1", "heartbeat_type_split_1_2", "heartbeat_type_split_4_2"} -> v[1].hbt
     [] site \in {"status_type_server", "status_type_client"} -> v.req[1].st
     [] site = "sni_name_type_client" -> v.names[1].nt [] site = "named_group_client" -> v.groups[2]
     [] site = "signature_scheme_client" -> v.algs[1] [] site = "psk_mode_client" -> v.modes[2]
@@ -154,6 +187,10 @@ Acc(site, v) ==
     [] site = "extension_type_unknown_parser" -> v.ty
     [] site = "named_group_in_extension" -> v.groups[2]
     [] site = "named_group_ec_parameters" -> v.content.g
+    [] site \in {"named_group_ecdh_params", "named_group_ecdh_params_long_point"} -> v.params.content.g
+    [] site \in {"named_group_content_and_signature", "named_group_content_and_signature_old"} -> v.content.params.content.g
+    [] site = "named_group_content_selector" -> v.g
+    [] site = "named_group_in_server_key_exchange" -> v.params.content.params.content.g
     [] site = "named_group_esni" -> v.group [] site = "esni_cipher" -> v.cipher
     [] site = "signature_scheme_in_extension" -> v.algs[1]
     [] site = "signature_algorithm_cert_request" -> v.m.sigalgs[1][1]
